@@ -41,6 +41,8 @@ static unsigned nallocs;
 static struct { void* p; unsigned id; size_t len; } outb[MAXBUF];
 static unsigned nout;
 static long pending_null = -1;
+static size_t pending_null_len;
+static unsigned starts_ok;           /* successful uv_read_start calls: selects the callback pair */
 static size_t pos;                 /* stream position of the next byte the peer writes */
 static int peer_shut;
 static unsigned strip_mask, add_mask;
@@ -118,21 +120,23 @@ static void close_cb(uv_handle_t* handle) {
   if (!quiet) printf("cb close\n");
 }
 
-static void alloc_cb(uv_handle_t* handle, size_t suggested, uv_buf_t* buf) {
+static void alloc_impl(int who, uv_handle_t* handle, size_t suggested, uv_buf_t* buf) {
   unsigned id = nalloc++;
   char kind = 'n'; long v = 65536; size_t len;
   (void) handle;
   if (id < nallocs) { kind = allocs[id].kind; v = allocs[id].v; }
   if (suggested != 65536) printf("#suggested %zu\n", suggested);
-  if (kind == '0') { *buf = uv_buf_init(NULL, 0); pending_null = id; len = 0; }
+  if (kind == '0') { *buf = uv_buf_init(NULL, 0); pending_null = id; pending_null_len = 0; len = 0; }
+  else if (kind == 'u') { pending_null = id; pending_null_len = 0; len = 0; }    /* refusal by leaving *buf untouched */
+  else if (kind == 'b') { buf->base = NULL; buf->len = (size_t) v; pending_null = id; pending_null_len = (size_t) v; len = 0; }
   else {
     len = kind == 'z' ? 0 : (size_t) v;
     buf->base = malloc(len ? len : 1); buf->len = len;
     if (nout >= MAXBUF) abort();
     outb[nout].p = buf->base; outb[nout].id = id; outb[nout].len = len; nout++;
   }
-  if (!quiet) printf("cb alloc %u %zu\n", id, len);
-  if (kind == 'z') printf("#zlen-nonnull-base\n");
+  if (!quiet) printf("cb alloc %u %zu g=%d\n", id, len, who);
+  if (kind != 'n') printf("#refusal-kind %c\n", kind);
 }
 
 static void accept_pending(void) {
@@ -148,7 +152,7 @@ static void accept_pending(void) {
   }
 }
 
-static void read_cb(uv_stream_t* s, ssize_t nread, const uv_buf_t* buf) {
+static void read_impl(int who, uv_stream_t* s, ssize_t nread, const uv_buf_t* buf) {
   char idbuf[48]; unsigned k;
   (void) s;
   strcpy(idbuf, "-");
@@ -161,7 +165,7 @@ static void read_cb(uv_stream_t* s, ssize_t nread, const uv_buf_t* buf) {
       outb[i] = outb[--nout];
     } else strcpy(idbuf, "?unknown-pointer");
   } else if (pending_null >= 0) {
-    if (buf->len == 0) snprintf(idbuf, sizeof(idbuf), "%ld", pending_null);
+    if (buf->len == pending_null_len) snprintf(idbuf, sizeof(idbuf), "%ld", pending_null);
     else snprintf(idbuf, sizeof(idbuf), "%ld!len%zu", pending_null, (size_t) buf->len);
     pending_null = -1;
   } else if (buf->len != 0) strcpy(idbuf, "-!len");
@@ -169,7 +173,7 @@ static void read_cb(uv_stream_t* s, ssize_t nread, const uv_buf_t* buf) {
     printf("cb read %zd buf=%s ", nread, idbuf);
     if (nread > 0) { for (ssize_t i = 0; i < nread; i++) printf("%02x", (unsigned char) buf->base[i]); }
     else printf("-");
-    printf("\n");
+    printf(" g=%d\n", who);
   }
   if (buf->base != NULL && strcmp(idbuf, "?unknown-pointer")) free(buf->base);
   accept_pending();
@@ -180,6 +184,15 @@ static void read_cb(uv_stream_t* s, ssize_t nread, const uv_buf_t* buf) {
     free(copy);
   }
 }
+
+/* four distinct callback pairs: every successful uv_read_start registers the next pair, each callback
+ * reports which pair it belongs to (a stale pair being invoked after stop+start is visible) */
+#define PAIR(n) \
+  static void alloc_cb_##n(uv_handle_t* hd, size_t sg, uv_buf_t* b) { alloc_impl(n, hd, sg, b); } \
+  static void read_cb_##n(uv_stream_t* st, ssize_t nr, const uv_buf_t* b) { read_impl(n, st, nr, b); }
+PAIR(0) PAIR(1) PAIR(2) PAIR(3)
+static const uv_alloc_cb alloc_cbs[4] = { alloc_cb_0, alloc_cb_1, alloc_cb_2, alloc_cb_3 };
+static const uv_read_cb read_cbs[4] = { read_cb_0, read_cb_1, read_cb_2, read_cb_3 };
 
 /* ------------------------------------------------------------------ ops */
 static void wait_ready(void) {
@@ -235,7 +248,11 @@ static void do_wbig(void) {
 
 static void do_op(char* w, int in_script) {
   (void) in_script;
-  if (!strcmp(w, "start")) printf("ret start %d\n", uv_read_start(&h.s, alloc_cb, read_cb));
+  if (!strcmp(w, "start")) {
+    int rc = uv_read_start(&h.s, alloc_cbs[starts_ok % 4], read_cbs[starts_ok % 4]);
+    if (rc == 0) starts_ok++;
+    printf("ret start %d\n", rc);
+  }
   else if (!strcmp(w, "stop")) printf("ret stop %d\n", uv_read_stop(&h.s));
   else if (!strcmp(w, "close")) {
     int rc = -1;
@@ -295,6 +312,8 @@ int main(void) {
           if (nallocs >= MAXENV) { printf("bad-op\n"); break; }
           if (!strcmp(w, "0")) allocs[nallocs].kind = '0';
           else if (!strcmp(w, "z")) allocs[nallocs].kind = 'z';
+          else if (!strcmp(w, "u")) allocs[nallocs].kind = 'u';
+          else if (w[0] == 'b' && atol(w + 1) > 0) { allocs[nallocs].kind = 'b'; allocs[nallocs].v = atol(w + 1); }
           else if (atol(w) > 0) { allocs[nallocs].kind = 'n'; allocs[nallocs].v = atol(w); }
           else { printf("bad-op\n"); break; }
           nallocs++;
